@@ -10,6 +10,11 @@ import os
 from .. import bind, run, fsx, fspat, refglob, bashref, fscommon
 from wcmatch import glob as G
 
+def _leaves(paths):
+    """Some result lies outside the scratch tree (reached through `..`): a directory other processes write to."""
+    return any(x == '..' or x.startswith('../') or '/../' in x or x.endswith('/..') for x in paths)
+
+
 ID = 'C05'
 LEVEL = 'exploration'
 REPLAY_DEADLINE = 120
@@ -69,7 +74,7 @@ def check_state(desc, sc, pats, flagsets, res, bash=True, names_tag='std'):
                 finally:
                     os.close(fd)
                 res.n['evaluations'] += 1
-                if got_fd != sorted(got):
+                if got_fd != sorted(got) and not _leaves(list(got) + list(got_fd or [])):
                     res.add_violation(ID, run.viol('dir_fd-differs', inp, sorted(got), got_fd))
             try:
                 ref = refglob.ref_glob(model, ast, fl)
